@@ -183,11 +183,11 @@ def run(rep: Report, only: str = "") -> None:
     import unit_scaling.functional as U
     thorough = rep.tier == "thorough"
     timeout = 300 if thorough else 60
-    depths = range(1, 9) if thorough else (1, 2, 3)
+    depths = range(1, 5) if thorough else (1, 2, 3)  # depth 5+ : z3 does not finish within 10 min per stack (measured) - not claimed
     tasks = []
     for kind in ("sequential", "apply", "nested"):
         for d in depths:
-            if kind == "nested" and d > (4 if thorough else 2):
+            if kind == "nested" and d > (3 if thorough else 2):
                 continue
             for rank, dt in (((0, "float64"), (1, "float32"), (2, "bfloat16"), (3, "float16")) if (thorough and d <= 2) else ((2, "float32"),)):
                 tasks.append((task, (kind, d, rank, dt, timeout)))
